@@ -56,6 +56,12 @@ PROPS["C14"] = {
                           "c14_select_any_timeval_first_slices", "c14_poll_any_timeout_first_slices"],
             "timeout": 300,
         },
+        {
+            # the layer the hooked calls wait in: EventLoop::timed_wait_just over the mio model (time passes inside the OS poll)
+            "mounts": [("c14_wait.rs", "net/event_loop.rs")],
+            "harnesses": ["c14_timed_wait_just_not_early"],
+            "timeout": 900,
+        },
     ],
 }
 
@@ -113,6 +119,14 @@ PROPS["C18"] = {
             "harnesses": ["c18_mode_readv", "c18_mode_writev", "c18_mode_recvmsg", "c18_mode_sendmsg"],
             "timeout": 900, "jobs": 2, "mem_gb": 30,
         },
+        {
+            # connection-establishing hooks; E6: connect.rs' getpeername / getsockopt(SO_ERROR) FFI calls go to the scripted kernel
+            "mounts": [("c16_io.rs", "syscall/unix/mod.rs"), ("c18_conn.rs", "syscall/unix/mod.rs")],
+            "subs": [("syscall/unix/connect.rs", "libc::getpeername(", "crate::syscall::unix::verif_c18_conn::k_getpeername(", None),
+                     ("syscall/unix/connect.rs", "libc::getsockopt(", "crate::syscall::unix::verif_c18_conn::k_getsockopt(", None)],
+            "harnesses": ["c18_mode_connect", "c18_mode_accept", "c18_mode_accept4"],
+            "timeout": 600,
+        },
     ],
 }
 
@@ -135,18 +149,37 @@ PROPS["C17"] = {
     ],
 }
 
+PROPS["C17"]["groups"].append({
+    "mounts": [("c16_io.rs", "syscall/unix/mod.rs")], "cfgs": ["ocv_nv3"],
+    "harnesses": ["c17_readv_3iov", "c17_writev_3iov", "c17_recvmsg_3iov", "c17_sendmsg_3iov"],
+    "timeout": 1500, "jobs": 2, "mem_gb": 30,
+    "bounds": "3 caller iovecs of 0..=2 bytes, 2 scripted responses, blocking descriptor, no time limit, waits succeed; unwind 5",
+})
+PROPS["C16"]["groups"].append({
+    "mounts": [("c16_io.rs", "syscall/unix/mod.rs")], "cfgs": ["ocv_nv3"],
+    "harnesses": ["c16_readv_3iov", "c16_writev_3iov", "c16_recvmsg_3iov", "c16_sendmsg_3iov"],
+    "timeout": 1500, "jobs": 2, "mem_gb": 30,
+    "bounds": "3 caller iovecs of 0..=2 bytes, 2 scripted responses, blocking descriptor, no time limit, waits succeed; unwind 5",
+})
+
 PROPS["C19"] = {
-    "functions": ["syscall::setsockopt (NioSetsockoptSyscall)", "syscall::unix::recv_time_limit", "syscall::unix::send_time_limit",
-                  "syscall::unix::get_time_limit", "syscall::close (NioCloseSyscall)"],
-    "bounds": "histories of 2, 3 and 4 operations from {set SO_RCVTIMEO, set SO_SNDTIMEO, query recv limit, query send limit, "
-              "close+reuse} over 2 descriptor numbers; timeval values symbolic with 0 <= sec < 2^20, 0 <= usec < 10^6; "
-              "dashmap model capacity 4; unwind 6.",
-    "outside": "more than 2 descriptors / longer histories; negative timeval fields (panic path of get_time_limit, see C28); "
-               "getsockopt failures; concurrent callers.",
+    "functions": ["syscall::setsockopt (SetsockoptSyscallFacade -> NioSetsockoptSyscall -> Raw)", "syscall::unix::recv_time_limit",
+                  "syscall::unix::send_time_limit", "syscall::unix::get_time_limit", "syscall::close (CloseSyscallFacade -> NioCloseSyscall -> Raw)"],
+    "bounds": "ONE operation from {set SO_RCVTIMEO, set SO_SNDTIMEO, query receive limit, query send limit, close + reuse of the number} "
+              "from an ARBITRARY valid state of the limit cache over 2 descriptor numbers (inductive step: histories of any length): "
+              "the socket's four option values are arbitrary valid timevals (any tv_sec >= 0, 0 <= tv_usec < 10^6), each of the four cache "
+              "entries is independently absent or coherent, the timeval passed to setsockopt is ANY pair of 64-bit fields (negative and "
+              "out-of-range included; the kernel model answers like Linux: EDOM for tv_usec outside [0,10^6), negative tv_sec stored as 0). "
+              "The timeval->limit conversion is an uninterpreted function in the step harnesses and is decided separately for every "
+              "non-negative timeval against a 128-bit reference (c19_conversion_all_timeval). Thorough tier adds concrete histories of 2 and 3 "
+              "operations with |tv_sec| < 2^20.",
+    "outside": "more than 2 descriptor numbers (the cache is keyed by number, entries do not interact); getsockopt failures; concurrent callers "
+               "(the lazy fill's assert!(insert(..).is_none()) can only fail under a race between two first uses); the Windows implementation.",
     "assumptions": [
-        "libc::getsockopt is replaced by a kernel-option model (per descriptor SO_RCVTIMEO/SO_SNDTIMEO values)",
-        "the raw setsockopt/close passed as fn_ptr update that model; closing a number resets its options (reuse by a new socket)",
+        "E6: the two libc::getsockopt FFI calls in send_time_limit/recv_time_limit are redirected to a kernel-option model (per descriptor SO_RCVTIMEO/SO_SNDTIMEO)",
+        "the raw setsockopt/close passed as fn_ptr update that model like Linux's sock_set_timeout; closing a number resets its options (reuse by a new socket)",
         "EventLoops::del_event is stubbed to Ok (interest bookkeeping is decided under C21)",
+        "get_time_limit is stubbed by a memoised arbitrary function (zero timeval <-> u64::MAX) in the c19_step_* harnesses only",
     ],
     "groups": [
         {
@@ -154,9 +187,9 @@ PROPS["C19"] = {
             # E6: the two libc::getsockopt FFI calls of send_time_limit/recv_time_limit go to the kernel-option model
             "subs": [("syscall/unix/mod.rs", "libc::getsockopt(", "verif_c19_sockopt::k_getsockopt(", None)],
             "harnesses": ["c19_step_set_rcvtimeo", "c19_step_set_sndtimeo", "c19_step_query_recv_limit",
-                          "c19_step_query_send_limit", "c19_step_close_and_reuse", "c19_conversion_all_timeval", "c19_history_2"],
-            "thorough_harnesses": ["c19_history_3"],
-            "timeout": 600, "timeout_thorough": 3000,
+                          "c19_step_query_send_limit", "c19_step_close_and_reuse", "c19_conversion_all_timeval"],
+            "thorough_harnesses": ["c19_history_2", "c19_history_3"],
+            "timeout": 1200, "timeout_thorough": 3000, "jobs": 6,
         },
     ],
 }
@@ -191,9 +224,11 @@ PROPS["C21"] = {
     "groups": [
         {
             "mounts": [("c20_selector.rs", "net/selector/mod.rs")],
-            "harnesses": ["c21_interest_history_3", "c21_rewait_after_event", "c21_two_event_loops"],
-            "thorough_harnesses": ["c21_interest_history_4"],
-            "timeout": 600, "timeout_thorough": 3000,
+            "harnesses": ["c21_step_wait_read", "c21_step_wait_write", "c21_step_del_both", "c21_step_del_read", "c21_step_del_write",
+                          "c21_step_close_and_reuse", "c21_step_event_delivered", "c21_step_hooked_close",
+                          "c21_rewait_after_event", "c21_two_event_loops"],
+            "thorough_harnesses": ["c21_interest_history_3", "c21_interest_history_4"],
+            "timeout": 900, "timeout_thorough": 3000, "jobs": 5,
         },
     ],
 }
@@ -297,6 +332,12 @@ PROPS["C09"] = {
         },
     ],
 }
+PROPS["C25"]["groups"].append({
+    "mounts": [("c09_requests.rs", "coroutine/suspender.rs")],
+    "harnesses": ["c25_dropped_with_the_coroutine"],
+    "timeout": 900,
+    "bounds": "one real Coroutine (corosensei model, scripted first step) holding 2 values, dropped never-started / suspended / completed / cancelled",
+})
 PROPS["C07"]["groups"].append({
     "mounts": [("c09_requests.rs", "coroutine/suspender.rs")],
     "harnesses": ["c07_scripted_body_path"],
@@ -307,4 +348,4 @@ PROPS["C07"]["groups"].append({
 # Properties claimed in MANIFEST.json: their quick checks were run from the committed tree on the unchanged
 # repository and are quiet. The other entries above are development harnesses (runnable through bin/check,
 # not claimed; reasons in not_applicable.py).
-CLAIMED = ["C14", "C16", "C17", "C18", "C20", "C25", "C28"]
+CLAIMED = ["C14", "C16", "C17", "C18", "C19", "C20", "C25", "C28"]
